@@ -1,10 +1,12 @@
 import Driver.Reader
+import Driver.Pipeline
 open Driver
 
 def handle (line : String) : String :=
   match line.trimAscii.toString.splitOn " " with
   | ["reader", buf, ops] => readerLine buf ops
   | ["reader", buf] => readerLine buf ""
+  | ["pipeline", proto, workers, _setup, data] => pipelineLine proto workers data
   | _ => "bad-op"
 
 partial def loop (h : IO.FS.Stream) (out : IO.FS.Stream) : IO Unit := do
